@@ -6,7 +6,7 @@ TRANSLATORS = []
 LEVEL = "proof"
 ASSUMPTIONS = [
     "the adapter is faithful: ordered rule sets per policy type that apply exactly the call they are given and never answer False (it implements Adapter, BatchAdapter and UpdateAdapter)",
-    "clear_policy (not a management call; it never talks to the adapter), update_policies (mirror theorem not yet proved, covered by the correspondence only) is outside the mirror theorem; update_filtered_policies has its own (Props/UpdFiltered mirror)",
+    "clear_policy (not a management call; it never talks to the adapter), update_policies has its own mirror theorem (Props/C09u mirror_updateMany, pairwise different old rules), update_filtered_policies too (Props/UpdFiltered mirror)",
 ]
 TRUSTED_EXTRA = []
 
@@ -39,7 +39,7 @@ def judge_factory():
                 what = f"the call reported {rec['ret']} but told the adapter {rec['acalls']}"
             elif not before_on and rec["acalls"]:
                 what = f"auto-save is off but the adapter was told {rec['acalls']}"
-            elif not ever_off and not raised and not rec["mirror"] and not any(o[0] in ("clear", "updatemany") for o in hist[: i + 1]):
+            elif not ever_off and not raised and not rec["mirror"] and not any(o[0] == "clear" or (o[0] == "updatemany" and len({tuple(r) for r in o[1]}) < len(o[1])) for o in hist[: i + 1]):
                 what = f"after the call (result {rec['ret']}) the adapter holds {rec['store']} while memory holds {rec['pol']}"
         elif op[0] == "save":
             if not rec["mirror"]:
